@@ -175,6 +175,58 @@ func c01Layout(c *Ctx, p *Prog) {
 		bad = "data is not copied to pkt[3:]"
 	}
 	if !okPad {
+		// alternative: pkt is a fresh zero-initialised local array and nothing but
+		// the type byte, the length field, the data copy and copies of zeros is
+		// ever written into it, so whatever follows the data is zero
+		if al, isAlloc := unspill(pl.X).(*ssa.Alloc); isAlloc && !al.Heap || isAlloc {
+			clean := true
+			allInstrs(mk, func(in ssa.Instruction) {
+				switch x := in.(type) {
+				case *ssa.Store:
+					if ia, ok := x.Addr.(*ssa.IndexAddr); ok && bufObjKey(ia.X) == pkt {
+						if k, ok := intConst(ia.Index); !ok || k != 0 {
+							clean = false
+						}
+					} else if unspill(x.Addr) == ssa.Value(al) {
+						clean = false
+					}
+				case ssa.CallInstruction:
+					id := p.CalleeID(x.Common())
+					for i, a := range x.Common().Args {
+						sl, ok := unspill(a).(*ssa.Slice)
+						if !ok || bufObjKey(sl) != pkt {
+							continue
+						}
+						switch {
+						case id == "builtin:copy" && i == 1, id == M(idEncode), id == "builtin:len":
+							// reads
+						case id == "(encoding/binary.bigEndian).PutUint16" && i == 1:
+						case id == "builtin:copy" && i == 0:
+							src := unspill(x.Common().Args[1])
+							if src == ssa.Value(data) {
+								break
+							}
+							if ss, ok := src.(*ssa.Slice); ok {
+								if g, ok := ss.X.(*ssa.Global); ok {
+									p.prov()
+									if len(p.pi.writes[Loc{Kind: 'g', V: g}]) == 0 {
+										break
+									}
+								}
+							}
+							clean = false
+						default:
+							clean = false
+						}
+					}
+				}
+			})
+			if clean {
+				okPad = true
+			}
+		}
+	}
+	if !okPad {
 		bad = "padding is not padLen bytes of a never-written zero array copied to pkt[3+len(data):]"
 	}
 	if bad != "" {
@@ -234,8 +286,13 @@ func c01ReaderShape(p *Prog, rp *ssa.Function) readerShape {
 	us := p.CallsIn(rp, "(encoding/binary.bigEndian).Uint16")
 	for _, u := range us {
 		if sl, ok := unspill(u.Common().Args[1]).(*ssa.Slice); ok && unspill(sl.X) == ssa.Value(rs.pkt) {
-			if k, ok := intConst(sl.Low); ok && k == 1 && sl.High == nil {
-				rs.length = u.(*ssa.Call)
+			// BE16 reads the first two bytes of its argument: pkt[1:] and pkt[1:h], h >= 3, are the same field
+			if k, ok := intConst(sl.Low); ok && k == 1 {
+				if sl.High == nil {
+					rs.length = u.(*ssa.Call)
+				} else if h, ok := intConst(sl.High); ok && h >= 3 {
+					rs.length = u.(*ssa.Call)
+				}
 			}
 		}
 	}
@@ -439,77 +496,97 @@ func c01WritePath(c *Ctx, p *Prog) {
 			chop = call.(*ssa.Call)
 		}
 	}
-	if chop == nil {
-		ob.Violate("the caller's slice is not wrapped by bytes.NewBuffer(b)")
-		return
-	}
-	var rd *ssa.Call
-	for _, call := range p.CallsIn(w, "(*bytes.Buffer).Read") {
-		if unspill(call.Common().Args[0]) == ssa.Value(chop) {
-			if rd != nil {
-				ob.Violate("more than one read of the chop buffer")
-				return
-			}
-			rd = call.(*ssa.Call)
-		}
-	}
-	if rd == nil {
-		ob.Violate("no Read on the chop buffer")
-		return
-	}
-	var n ssa.Value
-	for _, r := range *rd.Referrers() {
-		if ex, ok := r.(*ssa.Extract); ok && ex.Index == 0 {
-			n = ex
-		}
-	}
-	arr := bufObjKey(rd.Common().Args[1])
-	// the makePacket that takes the chunk
 	var mk ssa.CallInstruction
-	for _, call := range p.CallsIn(w, idMakePacket) {
-		a := call.Common().Args // conn, w, type, data, padLen
-		if sl, ok := unspill(a[3]).(*ssa.Slice); ok && bufObjKey(sl) == arr {
-			if mk != nil {
-				ob.Violate("the chunk array is packetised at more than one site")
-				return
-			}
-			mk = call
-			if sl.Low != nil || sl.High == nil || unspill(sl.High) != n {
-				ob.Violate("the chunk handed to makePacket at %s is not payload[:n] with n the count just read", p.InstrPos(call))
-				return
-			}
-			if k, ok := intConst(a[2]); !ok || k != 0 {
-				ob.Violate("application data is not sent as packet type 0 (payload)")
-				return
-			}
-			if k, ok := intConst(a[4]); !ok || k != 0 {
-				ob.Violate("application data packets carry padding (not the deployed behaviour; the reader would still drop it, but sizes change)")
-				return
-			}
-		}
-	}
-	if mk == nil {
-		ob.Violate("the bytes read from the caller's buffer are not handed to makePacket")
-		return
-	}
-	if !instrDominates(rd, mk) || mk.Block() == nil {
-		ob.Violate("makePacket is not dominated by the read of its chunk")
-		return
-	}
-	// every iteration that read bytes packetises them: from rd, every path back to the loop head or to the loop exit passes mk or returns an error
-	head := rd.Block()
-	for _, pred := range head.Preds {
-		if isBackEdge(pred, head) {
-			last := pred.Instrs[len(pred.Instrs)-1]
-			if canReachWithout(rd, last, map[ssa.Instruction]bool{mk: true}) && pred != head {
-				ob.Violate("an iteration can continue without packetising the chunk it read")
-				return
-			}
-		}
-	}
-	// loop condition: chopBuf.Len() > 0
-	// returned count
+	var n ssa.Value
 	ff := p.Facts(w)
+	if chop == nil {
+		// idiom B: the caller's slice is consumed prefix by prefix
+		var msg string
+		mk, n, msg = c01ChopBySlicing(p, w, b)
+		if mk == nil {
+			ob.Violate("the caller's bytes are chopped neither through bytes.NewBuffer(b) nor by the rem[:k] / rem = rem[k:] idiom: %s", msg)
+			return
+		}
+	} else {
+		var rd *ssa.Call
+		for _, call := range p.CallsIn(w, "(*bytes.Buffer).Read") {
+			if unspill(call.Common().Args[0]) == ssa.Value(chop) {
+				if rd != nil {
+					ob.Violate("more than one read of the chop buffer")
+					return
+				}
+				rd = call.(*ssa.Call)
+			}
+		}
+		if rd == nil {
+			ob.Violate("no Read on the chop buffer")
+			return
+		}
+		for _, r := range *rd.Referrers() {
+			if ex, ok := r.(*ssa.Extract); ok && ex.Index == 0 {
+				n = ex
+			}
+		}
+		arr := bufObjKey(rd.Common().Args[1])
+		// the makePacket that takes the chunk
+		for _, call := range p.CallsIn(w, idMakePacket) {
+			a := call.Common().Args // conn, w, type, data, padLen
+			if sl, ok := unspill(a[3]).(*ssa.Slice); ok && bufObjKey(sl) == arr {
+				if mk != nil {
+					ob.Violate("the chunk array is packetised at more than one site")
+					return
+				}
+				mk = call
+				if sl.Low != nil || sl.High == nil || unspill(sl.High) != n {
+					ob.Violate("the chunk handed to makePacket at %s is not payload[:n] with n the count just read", p.InstrPos(call))
+					return
+				}
+			}
+		}
+		if mk == nil {
+			ob.Violate("the bytes read from the caller's buffer are not handed to makePacket")
+			return
+		}
+		if !instrDominates(rd, mk) || mk.Block() == nil {
+			ob.Violate("makePacket is not dominated by the read of its chunk")
+			return
+		}
+		// every iteration that read bytes packetises them: from rd, every path back to the loop head or to the loop exit passes mk or returns an error
+		head := rd.Block()
+		for _, pred := range head.Preds {
+			if isBackEdge(pred, head) {
+				last := pred.Instrs[len(pred.Instrs)-1]
+				if canReachWithout(rd, last, map[ssa.Instruction]bool{mk: true}) && pred != head {
+					ob.Violate("an iteration can continue without packetising the chunk it read")
+					return
+				}
+			}
+		}
+		// the loop runs while the chop buffer is non-empty
+		okLoop := false
+		for _, f := range ff.NC(rd.Block()) {
+			if bo, ok := f.Cond.(*ssa.BinOp); ok {
+				if call, _ := callOf(unspill(bo.X)); call != nil && p.CalleeID(call.Common()) == "(*bytes.Buffer).Len" && unspill(call.Common().Args[0]) == ssa.Value(chop) {
+					okLoop = true
+				}
+			}
+		}
+		if !okLoop {
+			ob.Violate("the chopping loop is not driven by chopBuf.Len()")
+			return
+		}
+	}
+	if a := mk.Common().Args; true {
+		if k, ok := intConst(a[2]); !ok || k != 0 {
+			ob.Violate("application data is not sent as packet type 0 (payload)")
+			return
+		}
+		if k, ok := intConst(a[4]); !ok || k != 0 {
+			ob.Violate("application data packets carry padding (not the deployed behaviour; the reader would still drop it, but sizes change)")
+			return
+		}
+	}
+	// returned count
 	for _, r := range ff.SuccessReturns() {
 		v := unspill(r.Results[0])
 		ph, ok := v.(*ssa.Phi)
@@ -517,7 +594,7 @@ func c01WritePath(c *Ctx, p *Prog) {
 		if ok {
 			for _, e := range ph.Edges {
 				if bo, ok := unspill(e).(*ssa.BinOp); ok && bo.Op == token.ADD {
-					if (unspill(bo.X) == ssa.Value(ph) && unspill(bo.Y) == n) || (unspill(bo.Y) == ssa.Value(ph) && unspill(bo.X) == n) {
+					if (unspill(bo.X) == ssa.Value(ph) && unspill(bo.Y) == unspill(n)) || (unspill(bo.Y) == ssa.Value(ph) && unspill(bo.X) == unspill(n)) {
 						okSum = true
 					}
 				} else if k, isK := intConst(e); !isK || k != 0 {
@@ -530,21 +607,11 @@ func c01WritePath(c *Ctx, p *Prog) {
 			return
 		}
 	}
-	// the loop runs while the chop buffer is non-empty
-	okLoop := false
-	for _, f := range ff.NC(rd.Block()) {
-		if bo, ok := f.Cond.(*ssa.BinOp); ok {
-			if call, _ := callOf(unspill(bo.X)); call != nil && p.CalleeID(call.Common()) == "(*bytes.Buffer).Len" && unspill(call.Common().Args[0]) == ssa.Value(chop) {
-				okLoop = true
-			}
-		}
+	if chop != nil {
+		ob.HoldNT("chopBuf=NewBuffer(b); n=chopBuf.Read(payload[:]); makePacket(payload[:n], type 0, pad 0); returns sum n")
+	} else {
+		ob.HoldNT("rem=b; makePacket(rem[:k], type 0, pad 0); rem=rem[k:] while len(rem)>0, k>=1; returns sum k")
 	}
-	if !okLoop {
-		ob.Violate("the chopping loop is not driven by chopBuf.Len()")
-		return
-	}
-	// loop exit only when empty: every edge leaving to the after-loop code comes from the Len() test
-	ob.HoldNT("chopBuf=NewBuffer(b); n=chopBuf.Read(payload[:]); makePacket(payload[:n], type 0, pad 0); returns sum n")
 
 	// all bytes handed to the wire: the final network write covers the whole frame buffer
 	ob = c.Obl("R4", "transports/obfs4:(*obfs4Conn).Write#flush", "everything encoded into the frame buffer is written to the connection: the non-IAT path writes frameBuf.Bytes(), the IAT path loops until frameBuf.Len() == 0 writing iatFrame[:n] with n the count read from frameBuf")
@@ -704,6 +771,16 @@ func c01Remainder(c *Ctx, p *Prog) {
 		if s.Fn == rp {
 			if k, ok := s.Val.(*ssa.Const); ok && k.Value != nil && k.Value.String() == "false" {
 				if hasFact(rff.NC(s.Instr.Block()), func(f Fact) bool { k2, _, ok := fieldLoad(f.Cond); return ok && k2 == flag && f.Pol }) {
+					okClr = true
+				}
+				// or cleared unconditionally: the store lies on every path to every return
+				all := true
+				for _, r := range returnsOf(rp) {
+					if r.Block().Comment != "recover" && !instrDominates(s.Instr, r) {
+						all = false
+					}
+				}
+				if all {
 					okClr = true
 				}
 			}
@@ -1125,4 +1202,80 @@ func isLockedDist(p *Prog, k FieldKey) bool {
 		}
 	}
 	return false
+}
+
+// c01ChopBySlicing recognises the prefix-consumption idiom
+//
+//	for rem := b; len(rem) > 0; { k := ...; makePacket(.., rem[:k], ..); rem = rem[k:] }
+//
+// and returns the makePacket call and k.  The chunks then concatenate to b
+// exactly: each iteration sends the first k bytes of what is left and drops
+// exactly those, the loop ends only when nothing is left, and k >= 1.
+func c01ChopBySlicing(p *Prog, w *ssa.Function, b *ssa.Parameter) (ssa.CallInstruction, ssa.Value, string) {
+	ff := p.Facts(w)
+	bd := p.NewBounds()
+	msg := "no makePacket call takes a prefix of a loop-carried remainder of b"
+	for _, call := range p.CallsIn(w, idMakePacket) {
+		a := call.Common().Args
+		s1, ok := unspill(a[3]).(*ssa.Slice)
+		if !ok || s1.Low != nil || s1.High == nil {
+			continue
+		}
+		rem, ok := unspill(s1.X).(*ssa.Phi)
+		if !ok || len(rem.Edges) != 2 {
+			continue
+		}
+		k := unspill(s1.High)
+		initOK, advOK := false, false
+		var backPred *ssa.BasicBlock
+		for i, e := range rem.Edges {
+			e = unspill(e)
+			if e == ssa.Value(b) && !isBackEdge(rem.Block().Preds[i], rem.Block()) {
+				initOK = true
+				continue
+			}
+			if s2, ok := e.(*ssa.Slice); ok && unspill(s2.X) == ssa.Value(rem) && s2.High == nil && s2.Low != nil && unspill(s2.Low) == k && isBackEdge(rem.Block().Preds[i], rem.Block()) {
+				advOK = true
+				backPred = rem.Block().Preds[i]
+			}
+		}
+		if !initOK || !advOK {
+			msg = "the remainder at " + p.InstrPos(call) + " is not rem = phi(b, rem[k:]) with the k of the chunk rem[:k]"
+			continue
+		}
+		// the iteration that advances also packetised
+		if !instrDominates(call, backPred.Instrs[len(backPred.Instrs)-1]) {
+			msg = "an iteration can drop rem[:k] without packetising it"
+			continue
+		}
+		// loop driven by len(rem) > 0 at the header
+		okLoop := false
+		for _, f := range ff.NC(call.Block()) {
+			bo, ok := f.Cond.(*ssa.BinOp)
+			if !ok {
+				continue
+			}
+			lc, _ := callOf(unspill(bo.X))
+			if lc == nil {
+				lc, _ = callOf(unspill(bo.Y))
+			}
+			if lc != nil && p.CalleeID(lc.Common()) == "builtin:len" && unspill(lc.Common().Args[0]) == ssa.Value(rem) && blockIf(rem.Block()) != nil {
+				if c, _ := stripNot(blockIf(rem.Block()).Cond, true); c == f.Cond {
+					okLoop = true
+				}
+			}
+		}
+		if !okLoop {
+			msg = "the chopping loop is not driven by len(rem) at its head"
+			continue
+		}
+		// progress: k >= 1
+		okp, why := bd.Prove(w, call, func(s *scope, pr *proof) []Cons { return []Cons{geC(s.lin(k, pr), 1)} })
+		if !okp {
+			msg = "chunk length k >= 1 is not provable (" + why + ")"
+			continue
+		}
+		return call, k, ""
+	}
+	return nil, nil, msg
 }
